@@ -164,7 +164,8 @@ def run(ctx):
     REG.clear()
 
     # ---- the pair ---------------------------------------------------------------
-    spec = gen.gen_signal_spec(tape, maxlen=96, layouts=False, label="sig")
+    spec = gen.gen_signal_spec(tape, maxlen=96 if ctx.tier == "quick" else 192, layouts=False,
+                               label="sig", big=ctx.tier != "quick")
     zn, _ = gen.build_numpy(pb, spec)
     tchunk = tape.chance(1, 6, "src.time_chunked") and zn.shape[0] >= 2
     chunks = gen.gen_chunks(tape, zn.shape, time_chunked=tchunk, label="src.chunks")
@@ -247,7 +248,8 @@ def _pipeline(ctx, pb, zn, zd, owners, style, case, nblocks, other):
     import dask
     import dask.array as da
     tape = ctx.tape
-    npipe = 1 + tape.weighted([3, 3, 2, 1], "npipe")
+    npipe = 1 + (tape.weighted([3, 3, 2, 1], "npipe") if ctx.tier == "quick"
+                 else tape.weighted([2, 3, 3, 2, 1, 1], "npipe"))
     cur_n, cur_d = zn, zd
     stages = []            # (name, rn, rd) signal results kept for multi-output compute
     nfft = 0
